@@ -1065,6 +1065,60 @@ Section Facts.
       Qed.
     End Twin.
 
+    (* ---------------------------------------------------------------- the uncached twin is Pipe.run (the model of C02) *)
+    Section Uncached.
+      Variable kw : alist.
+      Variable full : bool.
+      Notation RUNU := (crun_out body pick P false false p kw full).
+      Definition proj (st : @xstate C) : rstate := {| res := xres st; used := xused st; log := xlog st |}.
+
+      Definition unc_at (n : nat) : Prop :=
+        forall st o st' r, RUNU n st o = (st', r) ->
+          run_out body pick p kw n (proj st) o = (proj st', r) /\ xc st' = xc st /\ xhit st' = xhit st.
+
+      Lemma unc_args n f : unc_at n -> forall ps st acc st' r,
+        cget_args p kw (RUNU n) f ps st acc = (st', r) ->
+        get_args p kw (run_out body pick p kw n) f ps (proj st) acc = (proj st', r) /\ xc st' = xc st /\ xhit st' = xhit st.
+      Proof.
+        intros IH. induction ps as [|[cur orig] t IHt]; intros st acc st' r H.
+        - cbn in H. injection H as <- <-. cbn. auto.
+        - rewrite cget_args_cons in H. cbn [get_args]. unfold cresolve in H. unfold resolve.
+          destruct (aget (bound f) cur) as [b|] eqn:Eb; [exact (IHt (x_use st cur) _ st' r H)|].
+          destruct (aget kw cur) as [w|] eqn:Ek; [exact (IHt (x_use st cur) _ st' r H)|].
+          cbn [res proj]. destruct (is_output p cur) eqn:Eo.
+          + destruct (RUNU n st cur) as [st1 rv] eqn:Er. destruct (IH st cur st1 rv Er) as [E1 [E2 E3]]. rewrite E1.
+            destruct rv as [v|e].
+            * destruct (IHt (x_use st1 cur) _ st' r H) as [F1 [F2 F3]]. cbn in F2, F3. split; [exact F1 | split; congruence].
+            * injection H as <- <-. auto.
+          + destruct (pdefault p cur) as [d|]; [exact (IHt (x_use st cur) _ st' r H)|]. injection H as <- <-. auto.
+      Qed.
+
+      Lemma unc : forall n, unc_at n.
+      Proof.
+        induction n as [|n IH]; intros st o st' r H; [cbn in H; injection H as <- <-; cbn; auto|].
+        rewrite crun_out_S in H. cbn [run_out res proj]. destruct (aget (xres st) o); [injection H as <- <-; auto|].
+        destruct (producer p o) as [f|] eqn:Hf; [|injection H as <- <-; auto].
+        destruct (roots_exist o f Hf) as [ra Hra]. rewrite Hra in H.
+        unfold run_func in H. change (the_key kw false f ra) with (@None ckey) in H. cbn [found_of] in H.
+        unfold miss_branch in H. destruct (cget_args p kw (RUNU n) f (params f) st []) as [st1 ra1] eqn:Ea.
+        destruct (unc_args n f IH _ _ _ _ _ Ea) as [E1 [E2 E3]]. rewrite E1.
+        destruct ra1 as [args|e]; [|injection H as <- <-; auto].
+        destruct (body (fname f) args) as [r0|e]; injection H as <- <-; cbn; auto.
+      Qed.
+
+      Theorem uncached_twin_is_pipe_run c o :
+        crun body pick P false false p c o kw full = (fst (run body pick p o kw full), snd (run body pick p o kw full), c).
+      Proof.
+        unfold crun, run. destruct (negb (is_node p o)); [reflexivity|]. destruct (ahas kw o); [reflexivity|].
+        destruct (RUNU (S (length p)) (cinit kw c) o) as [st r] eqn:Er.
+        destruct (unc (S (length p)) _ _ _ _ Er) as [E1 [E2 E3]]. cbn in E2, E3.
+        change (proj (cinit kw c)) with (init_state kw) in E1. rewrite E1.
+        destruct r as [v|e]; [|cbn; now rewrite E2]. rewrite E3. cbn [negb andb].
+        unfold cunused, unused_kw. cbn [used proj].
+        destruct (filter (fun k => negb (mem_str k (xused st))) (akeys kw)); cbn; now rewrite E2.
+      Qed.
+    End Uncached.
+
     (* a repeated call does not re-execute a cached function whose entry is resident (policies that never evict) *)
     Theorem no_reexec_resident kw full c o f0 k0 r lg c' :
       In f0 p ->
